@@ -1,6 +1,6 @@
 CONSTANTS
   AuthFrom = "distinctTreeTiles"
-  Heights = {1, 2}
+  Heights = {1, 2, 3}
   MaxN = 12
   PairMaxN = 5
   MaxCorrupt = 2
